@@ -15,12 +15,13 @@ func init() {
 	property("C17",
 		"Static determinism and independence: (a) every range over a map only fills a set/map or a slice that is sorted before any other use; (b) no function outside package initialisation writes a package-level variable or a map/slice held in one (no state survives a compilation); (e) the blank line between top-level outputs is written exactly when something was emitted before: its guard reads a counter that goes up by one with every emitted output and with nothing else (not the position of the statement in the file, which also counts statements emitted elsewhere); (c) library code contains no goroutine, channel operation, select, or call into time / math/rand / crypto/rand / environment lookups, and reads files only in LoadFontConfig and main; (d) Emitter fields are written only by New, no emitter function updates a map it did not create itself (the text-label set is filled only in Emit), and the Parser fields written while parsing are exactly the token window, the scope stacks, the font cache, the constant table and the hoisting tables the property allows.",
 		[]string{"determinism of the Go runtime and of the standard-library functions used (fmt, strings, sort, strconv, regexp, encoding/json)", "go/ssa lowering is faithful to the source"},
-		"C17.a", "C17.b", "C17.c", "C17.d", "C17.e", "C20.a", "C06.b")
+		"C17.a", "C17.b", "C17.c", "C17.d", "C17.e", "C17.f", "C20.a", "C06.b")
 
 	register(&Rule{ID: "C17.a", Doc: "map iteration is order-insensitive (fills a set, or a slice sorted before use)", Floor: 4, Run: c17a})
 	register(&Rule{ID: "C17.b", Doc: "no package-level state is written outside init", Floor: 1, Run: c17b})
 	register(&Rule{ID: "C17.c", Doc: "no goroutines, channels, clocks, randomness or environment in library code; files read only in LoadFontConfig/main", Floor: 3, Run: c17c})
 	register(&Rule{ID: "C17.e", Doc: "the separator between top-level outputs depends only on whether something was emitted before", Floor: 3, Run: c17e})
+	register(&Rule{ID: "C17.f", Doc: "wiring: each command-line option reaches the constructor parameter and the field of its meaning, with its documented default; the lexer starts at line 1", Floor: 10, Run: c17f})
 	register(&Rule{ID: "C17.d", Doc: "emitter state is immutable after New; parser cross-statement state is the allowed set", Floor: 3, Run: c17d})
 }
 
@@ -572,6 +573,33 @@ func c17e(c *Ctx) {
 			counters = append(counters, counter{p, p.Block()})
 		}
 	})
+	// a counter that is carried on into a later loop is still the counter
+	for changed := true; changed; {
+		changed = false
+		instrs(fn, func(in ssa.Instruction) {
+			p, ok := in.(*ssa.Phi)
+			if !ok || !isLoopHeader(p.Block()) {
+				return
+			}
+			for _, k := range counters {
+				if k.phi == p {
+					return
+				}
+			}
+			for i, e := range p.Edges {
+				if p.Block().Dominates(p.Block().Preds[i]) {
+					continue
+				}
+				for _, k := range counters {
+					if e == ssa.Value(k.phi) {
+						counters = append(counters, counter{p, p.Block()})
+						changed = true
+						return
+					}
+				}
+			}
+		})
+	}
 	nSep := 0
 	for _, b := range fn.Blocks {
 		for _, in := range b.Instrs {
@@ -639,4 +667,249 @@ func c17e(c *Ctx) {
 		}
 	}
 	c.Check(nSep >= 1, "Emit/separators", c.W.FuncPos(fn), fmt.Sprintf("%d separator writes", nSep), "no blank-line separator between top-level outputs found")
+}
+
+// c17f: the properties speak of options (-optimize, -lm, -i, -s, -f, -fc, -l); the code they are
+// checked in speaks of struct fields. This rule closes the gap end to end, by following values,
+// not names: the value of flag "optimize" (default true) is what main hands to emitter.New in
+// the position of the parameter that New stores into Emitter.optimize, and so on. Renaming a
+// parameter or an intermediate field changes nothing; swapping two booleans does.
+func c17f(c *Ctx) {
+	mainFn := c.W.Func("", "main")
+	if mainFn == nil {
+		for _, f := range c.W.Funcs {
+			if f.Name() == "main" && f.Pkg != nil && f.Pkg.Pkg.Name() == "main" {
+				mainFn = f
+			}
+		}
+	}
+	if mainFn == nil {
+		c.Unk("anchor:main.main", "-", "main.main not found")
+		return
+	}
+	type want struct {
+		ctor, field, flag, def string
+	}
+	wants := []want{
+		{"emitter.New", "optimize", "optimize", "true"},
+		{"emitter.New", "enableLineMarkers", "lm", "true"},
+		{"emitter.New", "inputFilepath", "i", `""`},
+		{"parser.New", "fontConfigFilepath", "fc", `"font_config.json"`},
+		{"parser.New", "defaultFontID", "f", `""`},
+		{"parser.New", "maxLineLength", "l", "0"},
+		{"parser.New", "compileSwitches", "s", ""},
+	}
+	for _, w := range wants {
+		ctor := c.Fn(w.ctor)
+		if ctor == nil {
+			continue
+		}
+		key := "option[-" + w.flag + "]->" + w.ctor + "." + w.field
+		// the parameter the constructor stores into the field
+		pk := -1
+		for _, r := range returnsOf(ctor) {
+			if f := c.valueFields(ctor, r.Results[0], r); f != nil {
+				pk = paramIndexOfTerm(f[w.field])
+			}
+		}
+		if pk < 0 {
+			c.Bad(key, c.W.FuncPos(ctor), w.ctor+" does not store one of its parameters into "+w.field)
+			continue
+		}
+		calls := c.W.callsReaching(mainFn, ctor, 0)
+		if len(calls) != 1 || pk >= len(calls[0].Common().Args) {
+			c.Bad(key, c.W.FuncPos(mainFn), fmt.Sprintf("expected one call of %s in main, found %d", w.ctor, len(calls)))
+			continue
+		}
+		name, def, ok := flagSource(mainFn, calls[0].Common().Args[pk], 0)
+		pos := c.W.Pos(calls[0].Pos())
+		if !ok {
+			c.Unk(key, pos, "cannot follow argument "+pretty(c.term(mainFn, calls[0].Common().Args[pk]))+" back to a command-line flag")
+			continue
+		}
+		c.Check(name == w.flag && (w.def == "" || def == w.def), key, pos, "option -"+w.flag+" (default "+w.def+") is what "+w.ctor+" stores into "+w.field, fmt.Sprintf("%s.%s receives option -%s (default %s), expected -%s (default %s)", w.ctor, w.field, name, def, w.flag, w.def))
+	}
+	// the lexer starts on line 1 with nothing counted, and has read the first character
+	if ln := c.Fn("lexer.New"); ln != nil {
+		rc := c.Fn("lexer.Lexer.readChar")
+		okInit, okRead := false, false
+		for _, a := range allocsOf(ln, "lexer", "Lexer") {
+			f := c.valueFields(ln, a, a)
+			for _, in := range a.Block().Instrs {
+				if st, isSt := in.(*ssa.Store); isSt {
+					f = c.valueFields(ln, a, st)
+				}
+			}
+			if rc != nil {
+				for _, call := range callsToIn(ln, rc) {
+					f = c.valueFields(ln, a, call.(ssa.Instruction))
+					okRead = call.Common().Args[0] == ssa.Value(a)
+				}
+			}
+			if f != nil {
+				okInit = f["lineNumber"] == "1" && f["input"] == "$0"
+				for _, z := range []string{"charNumber", "utf8CharNumber", "prevCharNumber", "prevUtf8CharNumber", "position", "readPosition"} {
+					okInit = okInit && (f[z] == "0" || f[z] == "zero" || f[z] == "")
+				}
+			}
+		}
+		c.Check(okInit && okRead, "lexer.New/initial-state", c.W.FuncPos(ln), "a new lexer is at line 1, column counters 0, and has read the first character", "lexer.New does not start at (line 1, all column counters 0) with the first character read: every reported line / column would be shifted")
+	}
+}
+
+// flagSource follows v back to the flag it is the value of: *flag.Bool(name, def, …) and
+// friends (also the …Var forms), the map registered with flag.Var, through fields of option
+// records that helper functions fill and return.
+func flagSource(fn *ssa.Function, v ssa.Value, depth int) (name, def string, ok bool) {
+	if depth > 6 {
+		return "", "", false
+	}
+	constArg := func(a ssa.Value) string {
+		if k, isC := a.(*ssa.Const); isC {
+			if k.Value == nil {
+				return "nil"
+			}
+			return k.Value.ExactString()
+		}
+		return "?"
+	}
+	flagCall := func(call *ssa.Call, off int) (string, string, bool) {
+		n := calleeName(call)
+		if !strings.HasPrefix(n, "flag.") && !strings.HasPrefix(n, "(*flag.FlagSet).") {
+			return "", "", false
+		}
+		a := call.Call.Args
+		if len(a) < off+2 {
+			return "", "", false
+		}
+		nm, isS := strConst(a[off])
+		if !isS {
+			return "", "", false
+		}
+		return nm, constArg(a[off+1]), true
+	}
+	// the address registered with flag.XxxVar / flag.Var, or its referrers
+	regOf := func(addr ssa.Value) (string, string, bool) {
+		if addr.Referrers() == nil {
+			return "", "", false
+		}
+		for _, r := range *addr.Referrers() {
+			var x ssa.Value
+			if mi, isMI := r.(*ssa.MakeInterface); isMI {
+				x = mi
+			} else if call, isCall := r.(*ssa.Call); isCall {
+				if strings.HasSuffix(calleeName(call), "Var") && len(call.Call.Args) > 0 && call.Call.Args[0] == addr {
+					if nm, d, ok := flagCall(call, 1); ok {
+						return nm, d, true
+					}
+				}
+				continue
+			}
+			if x != nil && x.Referrers() != nil {
+				for _, r2 := range *x.Referrers() {
+					if call, isCall := r2.(*ssa.Call); isCall && calleeName(call) == "flag.Var" {
+						if nm, isS := strConst(call.Call.Args[1]); isS {
+							return nm, "", true
+						}
+					}
+				}
+			}
+		}
+		return "", "", false
+	}
+	switch x := v.(type) {
+	case *ssa.MakeMap, *ssa.Alloc:
+		return regOf(x)
+	case *ssa.ChangeType:
+		return flagSource(fn, x.X, depth+1)
+	case *ssa.Call:
+		// a record-returning helper is handled by the field case; a flag accessor by value
+		return "", "", false
+	case *ssa.UnOp:
+		if x.Op != token.MUL {
+			return "", "", false
+		}
+		if call, isCall := x.X.(*ssa.Call); isCall {
+			return flagCall(call, 0)
+		}
+		if fa, isFA := x.X.(*ssa.FieldAddr); isFA {
+			fname := fieldName(fa.X.Type(), fa.Field)
+			if nm, d, ok := regOf(fa); ok {
+				return nm, d, true
+			}
+			a, isA := fa.X.(*ssa.Alloc)
+			if !isA || a.Referrers() == nil {
+				return "", "", false
+			}
+			return fieldOrigin(fn, a, fname, depth)
+		}
+		if a, isA := x.X.(*ssa.Alloc); isA {
+			if nm, d, ok := regOf(a); ok {
+				return nm, d, true
+			}
+			for _, r := range *a.Referrers() {
+				if st, isSt := r.(*ssa.Store); isSt && st.Addr == ssa.Value(a) {
+					return flagSource(fn, st.Val, depth+1)
+				}
+			}
+		}
+	}
+	return "", "", false
+}
+
+// fieldOrigin: the value of field fname of the record variable a — stored directly, or as part
+// of a whole record returned by a helper.
+func fieldOrigin(fn *ssa.Function, a *ssa.Alloc, fname string, depth int) (string, string, bool) {
+	for _, r := range *a.Referrers() {
+		switch y := r.(type) {
+		case *ssa.FieldAddr:
+			if fieldName(y.X.Type(), y.Field) != fname {
+				continue
+			}
+			if y.Referrers() == nil {
+				continue
+			}
+			for _, r2 := range *y.Referrers() {
+				if st, isSt := r2.(*ssa.Store); isSt && st.Addr == ssa.Value(y) {
+					return flagSource(fn, st.Val, depth+1)
+				}
+				if call, isCall := r2.(*ssa.Call); isCall && strings.HasSuffix(calleeName(call), "Var") && len(call.Call.Args) > 2 && call.Call.Args[0] == ssa.Value(y) {
+					if nm, isS := strConst(call.Call.Args[1]); isS {
+						d := "?"
+						if k, isC := call.Call.Args[2].(*ssa.Const); isC && k.Value != nil {
+							d = k.Value.ExactString()
+						}
+						return nm, d, true
+					}
+				}
+			}
+		case *ssa.Store:
+			if y.Addr != ssa.Value(a) {
+				continue
+			}
+			// whole record: from a helper's return
+			if call, isCall := y.Val.(*ssa.Call); isCall {
+				if g := callee(call); g != nil && len(g.Blocks) > 0 {
+					for _, ret := range returnsOf(g) {
+						if len(ret.Results) != 1 {
+							continue
+						}
+						if ld, isLd := ret.Results[0].(*ssa.UnOp); isLd {
+							if a2, isA := ld.X.(*ssa.Alloc); isA && a2.Referrers() != nil {
+								if nm, d, ok := fieldOrigin(g, a2, fname, depth+1); ok {
+									return nm, d, true
+								}
+							}
+						}
+					}
+				}
+			}
+			if ld, isLd := y.Val.(*ssa.UnOp); isLd {
+				if a2, isA := ld.X.(*ssa.Alloc); isA && a2.Referrers() != nil {
+					return fieldOrigin(fn, a2, fname, depth+1)
+				}
+			}
+		}
+	}
+	return "", "", false
 }
